@@ -95,7 +95,7 @@ func c06Jobs(tier string, seed int64) []string {
 			// (a nested slow list makes the outer elements slow; behind an accept stage the late, slow elements
 			// of the source fall into the measurement window of the next stage)
 			opt += ",expectnot=initParallel"
-		case strings.Contains(p, "slow("):
+		case prof != "late" && strings.Contains(p, "slow("):
 			opt += ",expect=initParallel"
 		}
 		if strings.Contains(p, ".merge(") {
